@@ -27,6 +27,11 @@ func (p *Parser) findConvergenEntries() ([]*intfEntry, error) {
 	scope := p.pkg.Types.Scope()
 	for _, name := range scope.Names() {
 		obj := scope.Lookup(name)
+		if _, ok := obj.(*types.TypeName); !ok {
+			// Only a declared type can be a converter interface, not a variable or
+			// function whose type happens to be an interface.
+			continue
+		}
 		_, ok := obj.Type().Underlying().(*types.Interface)
 		if !ok {
 			continue
